@@ -53,6 +53,13 @@ def cases(draw):
         if draw(st.sampled_from([False, False, True])):
             s1 = (2, (4, 4, 1024))
         c["shape"] = list(draw(gen.shape3d(s1[1], max_voxels=150_000, max_traces=700, magnitudes="lines")))
+        if draw(st.integers(0, 23)) == 17:
+            # one count far beyond the others: more than 16 384 crosslines on two inlines, or traces of 4100 / 33 000
+            # samples on a grid whose crossline count is no multiple of any block width
+            c["shape"] = list(draw(st.sampled_from([(2, 16500, 8), (5, 6, 4100), (3, 5, 33000), (6, 7, 4097)] if kind == "numpy" else
+                                                   [(5, 6, 4100), (3, 5, 33000), (6, 7, 4097)])))
+            s1 = draw(st.sampled_from([(4, (4, 4, 512)), (8, (4, 16, 64)), (1, (4, 4, 2048))]))      # (layouts that keep the padded cube small)
+            s2 = draw(st.sampled_from([(2, (64, 64, 4)), (16, (4, 4, 128)), (8, (8, 8, 64))]))
     c["s1"] = [s1[0], list(s1[1])]
     c["s2"] = [s2[0], list(s2[1])]
     if kind == "segy3d" and draw(st.integers(0, 3)) == 0:
@@ -163,6 +170,17 @@ def run_case(case, ctx):
 
 
 def shard_main(ctx):
+    fixed = {11: ("numpy", [2, 16500, 8]), 12: ("segy3d", [5, 6, 4100]), 13: ("numpy", [3, 5, 33000])}
+    if ctx.shard in fixed:
+        # one count far beyond the others, every run: more than 16 384 crosslines per inline; traces of 4100 / 33 000 samples
+        kind, shape = fixed[ctx.shard]
+        case = {"kind": kind, "values": {"kind": "gauss", "vseed": 90 + ctx.shard}, "fmt": 5, "reader": "segyio", "pert": "last", "u": [0.7, 0.6, 0.5],
+                "reuse": False, "mode": "strip", "mem": "C", "shape": shape, "s1": [4, [4, 4, 512]], "s2": [2, [64, 64, 4]]}
+        try:
+            ctx.evaluate(case, run_case)
+        except Violation as v:
+            ctx.failures.append({"kind": v.kind, "detail": v.detail, "case": case})
+            return
     ctx.explore("hash", cases(), run_case, ctx.n(60, 1000))
 
 
